@@ -49,7 +49,7 @@ REQUIRED_ORACLES = [
     "trace_valid", "score_honest", "not_above_optimum", "optimum_when_unrestricted", "band_respected",
     "band_error_iff_no_overlap", "seed_contained", "direction_respected", "score_only_consistent",
     "max_number_respected", "table_limit_consistent", "memory_error_when_growth_exceeds_limit",
-    "invalid_argument_rejected",
+    "invalid_argument_rejected", "match_run_reached",
 ]
 ANCHORS = [
     "biotite.sequence.align.matrix:SubstitutionMatrix.transpose",
@@ -529,6 +529,24 @@ def judge_seeded(ctx, P, ali_list, seed, threshold, direction, gapped, info):
         rs = R.rescore(rows, P.codes, P.matrix, gp if gapped else -10**9, True)
         ctx.check(rs == reported, "score_honest",
                   "alignment %d: trace re-scores to %d, reported %d" % (idx, rs, reported), trace=rows, **info)
+    # X-drop lower bound that holds for every threshold >= 0: when all matches score the maximum entry M > 0 of the matrix,
+    # no cell can lead the run of matches on the seed diagonal by anything (every pair step adds at most M, gaps add <= 0),
+    # so that run is never dropped and the reported score is at least M * (length of the run in the allowed directions)
+    mat = np.asarray(P.matrix)
+    M = int(mat.max()) if mat.size else 0
+    i0, j0 = seed
+    if (threshold >= 0 and M > 0 and mat.shape[0] == mat.shape[1] and all(int(mat[t, t]) == M for t in range(mat.shape[0]))
+            and P.c1[i0] == P.c2[j0]):
+        up = 0
+        while i0 - up - 1 >= 0 and j0 - up - 1 >= 0 and P.c1[i0 - up - 1] == P.c2[j0 - up - 1]:
+            up += 1
+        down = 0
+        while i0 + down + 1 < n and j0 + down + 1 < m and P.c1[i0 + down + 1] == P.c2[j0 + down + 1]:
+            down += 1
+        run = 1 + (up if direction in ("both", "upstream") else 0) + (down if direction in ("both", "downstream") else 0)
+        ctx.check(reported >= M * run, "match_run_reached",
+                  "the seed lies in a run of %d matches (each scoring the matrix maximum %d) in the allowed direction(s), but the reported score is %d"
+                  % (run, M, reported), **info)
     opt = P.seeded(seed, direction, gapped)
     ctx.check(reported <= opt, "not_above_optimum",
               "reported %d exceeds the optimum %d over alignments through the seed (direction %s)" % (reported, opt, direction), **info)
